@@ -130,6 +130,15 @@ impl<'a> Gen<'a> {
 
     fn pick_arg(&mut self, env: &Env) -> Opnd {
         let mut cands: Vec<Opnd> = vec![];
+        // accessors taken from scalars (x.$.[k]): a number indexes an array
+        let nums: Vec<String> = if self.profile == Profile::Full { env.scalars.iter().filter(|(_, k)| *k == Kind::Num).map(|(n, _)| n.clone()).collect() } else { vec![] };
+        for (n, k) in &env.scalars {
+            if matches!(k, Kind::Arr | Kind::Arr1 | Kind::PeerList) {
+                for kn in &nums {
+                    cands.push(varl(n, vec![Lens::Var { v: kn.clone() }]));
+                }
+            }
+        }
         for (n, k) in &env.scalars {
             cands.push(var(n));
             match k {
@@ -281,7 +290,7 @@ impl<'a> Gen<'a> {
                 _ => src,
             };
             if let Opnd::Var { n, .. } = &src {
-                if n.starts_with('#') {
+                if n.starts_with('#') && (self.profile != Profile::Full || n.starts_with("#%")) {
                     return self.gen_call(env, false);
                 }
             }
@@ -464,6 +473,14 @@ impl<'a> Gen<'a> {
                     match shape {
                         7 => seq(body, seq(nx, after)),
                         8 => par(nx, after),
+                        // the next iteration runs inside a `new` scope opened by this one (dynamic nesting of scopes)
+                        _ if self.streams_on() => {
+                            let s = if !eb.streams.is_empty() && self.chance(0.7) { eb.streams.choose(self.rng).cloned().unwrap() } else { self.sname("$") };
+                            let f = self.fname(&s);
+                            let p = self.pick_peer(&eb);
+                            let inner = if self.chance(0.5) { Instr::Ap { src: var(&it), dst: s.clone() } } else { call(p, "t", &f, vec![var(&it)], &s) };
+                            seq(body, Instr::New { n: s, i: Box::new(seq(inner, nx)) })
+                        }
                         _ => seq(nx, after),
                     }
                 };
